@@ -63,6 +63,11 @@ def load_known(prop: str) -> list[dict]:
 # --------------------------------------------------------------------------
 
 _WCHECK = None
+# C14 is also about what one use leaves behind for the next: a violation
+# that shows only after the runs this worker executed before (state kept in
+# a process-wide cache of the library) is replayed together with them.
+HISTORY_PROPS = ("C14",)
+_RECENT: list = []
 
 
 def _winit(prop: str) -> None:
@@ -94,6 +99,7 @@ def _wrun(args):
         if time.time() > deadline:
             break
         seed = run_seed(base_seed, prop, idx)
+        prelude = list(_RECENT)
         faulthandler.dump_traceback_later(run_timeout, exit=True)
         try:
             case = chk.gen(Choices(seed), tier)
@@ -104,6 +110,9 @@ def _wrun(args):
                                   "tb": traceback.format_exc()[-3000:]})
             continue
         faulthandler.cancel_dump_traceback_later()
+        if prop in HISTORY_PROPS:
+            _RECENT.append(case)
+            del _RECENT[:-25]
         out["runs"] += 1
         out["events"] += res.get("events", 0)
         out["sim_time"] += res.get("sim_time", 0.0)
@@ -136,6 +145,8 @@ def _wrun(args):
             faulthandler.cancel_dump_traceback_later()
             out["violations"].append({"idx": idx, "seed": seed,
                                       "violation": v0, "case": small,
+                                      "prelude": prelude if prop in
+                                      HISTORY_PROPS else None,
                                       "orig_case_hash": short_hash(case)})
         elif new:
             out["violations"].append({"idx": idx, "seed": seed,
@@ -216,7 +227,7 @@ def determinism_selftest(chk, prop, base_seed, tier, n, fresh=True,
 
 
 def write_replay(prop: str, tier: str, base_seed: int, v: dict,
-                 digest: str | None) -> str:
+                 digest: str | None, prelude: list | None = None) -> str:
     d = os.path.join(VERIF_ROOT, "replays")
     os.makedirs(d, exist_ok=True)
     name = f"{prop}-{base_seed}-{v['idx']}.json"
@@ -227,6 +238,9 @@ def write_replay(prop: str, tier: str, base_seed: int, v: dict,
         "violation": v["violation"], "case": v["case"], "digest": digest,
         "how": f"/venv/bin/python -m sim.run replay replays/{name}",
     }
+    if prelude:
+        # the cases the same process had run before, in order
+        doc["prelude"] = prelude
     with open(path, "w") as f:
         json.dump(doc, f, indent=1, sort_keys=True, default=str)
     return os.path.relpath(path, VERIF_ROOT)
@@ -238,6 +252,11 @@ def replay_file(path: str, quiet: bool = False) -> tuple[int, dict]:
     prop = doc["property"]
     chk = load_check(prop)
     chk.warmup()
+    for c_ in doc.get("prelude") or ():
+        try:
+            chk.run(c_)
+        except Exception:       # noqa: BLE001 - only their traces matter
+            pass
     res = chk.run(doc["case"])
     want = doc["violation"]["sig"]
     sigs = [v["sig"] for v in res.get("violations", ())]
@@ -379,6 +398,21 @@ def cmd_check(args) -> int:
         doc["self_replay_reproduced"] = bool(code)
         with open(os.path.join(VERIF_ROOT, path), "w") as f:
             json.dump(doc, f, indent=1, sort_keys=True, default=str)
+        if not code and v.get("prelude"):
+            # not on its own - after what the process had done before?
+            path = write_replay(prop, tier, base_seed, v, None, v["prelude"])
+            code, dig = _replay_fresh(path)
+            with open(os.path.join(VERIF_ROOT, path)) as f:
+                doc = json.load(f)
+            doc["digest"] = dig
+            doc["self_replay_reproduced"] = bool(code)
+            with open(os.path.join(VERIF_ROOT, path), "w") as f:
+                json.dump(doc, f, indent=1, sort_keys=True, default=str)
+            if code:
+                v["violation"]["detail"] = (
+                    "(only after the %d runs the same process executed "
+                    "before it - state carried from one use to the next) "
+                    % len(v["prelude"])) + str(v["violation"].get("detail"))
         if not code:
             print(f"HARNESS-ERROR property={prop} minimised case for run "
                   f"{v['idx']} does not reproduce ({path}); "
